@@ -122,6 +122,23 @@ def p_run(ints: list) -> bool:
         loc = s.location(n, m)
         col = s.int(0, r ** n - 1)
         fn, args = chk_perm, (r, n, loc, col)
+    elif S['fam'] == 'perm_hist':
+        # the answer must not depend on what was asked before (in this process): an earlier call for the same
+        # (num_qudits, location) with another radix, or for another location of the same length, then the checked call
+        r1 = s.int(2, S['rmax'])
+        r = s.int(2, S['rmax'])
+        n = s.int(S['nlo'], S['nhi'])
+        m = s.int(0, n)
+        loc = s.location(n, m)
+        loc1 = loc if s.int(0, 1) == 0 else s.location(n, m)
+        col = s.int(0, r ** n - 1)
+
+        def hist(r1: int, loc1: list, r: int, n: int, loc: list, col: int) -> 'str | None':
+            call(PermutationMatrix.from_qudit_location, n, r1, list(loc1))
+            if r1 == 2:
+                call(PermutationMatrix.from_qubit_location, n, list(loc1))
+            return chk_perm(r, n, loc, col)
+        fn, args = hist, (r1, loc1, r, n, loc, col)
     else:
         r = s.int(-1, S['rmax'])
         col = s.int(0, max(r * r - 1, 0) if r >= 2 else 0)
@@ -135,11 +152,12 @@ def p_run(ints: list) -> bool:
     return rt.fail(fp)
 
 
-def p_entry(x0: int, x1: int, x2: int, x3: int, x4: int, x5: int, x6: int, x7: int) -> bool:
+def p_entry(x0: int, x1: int, x2: int, x3: int, x4: int, x5: int, x6: int, x7: int, x8: int, x9: int, x10: int,
+            x11: int, x12: int, x13: int) -> bool:
     """
     post: _
     """
-    return p_run([x0, x1, x2, x3, x4, x5, x6, x7])
+    return p_run([x0, x1, x2, x3, x4, x5, x6, x7, x8, x9, x10, x11, x12, x13])
 
 
 def perm_obligations(tier: str, T: int) -> list[dict]:
@@ -151,7 +169,9 @@ def perm_obligations(tier: str, T: int) -> list[dict]:
     ob('swap/r<=5', fam='swap', rmax=5)
     ob('perm/radix2/n1-4', fam='perm', radix=2, nlo=1, nhi=4)
     ob('perm/radix3/n1-3', fam='perm', radix=3, nlo=1, nhi=3)
+    ob('perm-after-earlier-call/r<=3/n1-2', fam='perm_hist', rmax=3, nlo=1, nhi=2)
     if tier != 'quick':
+        ob('perm-after-earlier-call/r<=4/n3', fam='perm_hist', rmax=4, nlo=3, nhi=3)
         ob('perm/radix2/n5', fam='perm', radix=2, nlo=5, nhi=5)
         ob('perm/radix3/n4', fam='perm', radix=3, nlo=4, nhi=4)
         ob('perm/radix4/n1-3', fam='perm', radix=4, nlo=1, nhi=3)
